@@ -35,6 +35,7 @@ MatchJ(v, j) ==
     [] v.k = "none" -> TRUE
     [] OTHER -> j.k = v.k /\ j.v = v.v
 
+IsBuiltinErr(c) == c \in {"builtin:" \o b : b \in BuiltinNames}
 Has(seq, x) == \E i \in 1..Len(seq) : seq[i] = x
 
 \* observed array extends the expected one
@@ -46,7 +47,9 @@ ObsPrefix(v, j) == \/ v.k # "arr" \/ j.k # "arr"
 Verdict(rec) ==
   LET exp == Run(rec.prog)
       out == rec.out
-      good ==
+      \* a panic, abort or hang is never an allowed outcome, whatever the program
+      crashed == out.how \in {"panic", "abort", "timeout"}
+      good == ~crashed /\
         CASE exp.how = "compile" -> out.how = "compile"
           [] exp.how = "ok" -> /\ out.how = "ok"
                                /\ MatchJ(exp.obs, out.obs)
@@ -54,6 +57,8 @@ Verdict(rec) ==
           [] exp.how = "rterror" -> /\ out.how = "rterror"
                                     /\ MatchJ(exp.obs, out.obs)
                                     /\ Has(rec.chk, "line") => out.line = exp.err.ln
+                                    \* a failing builtin is named by the error message
+                                    /\ (Has(rec.chk, "bname") /\ IsBuiltinErr(exp.err.c)) => ("builtin:" \o out.mname) = exp.err.c
           [] exp.how = "unspec" -> ObsPrefix(exp.obs, out.obs)
   IN IF good /\ ~Has(rec.chk, "exp")
      THEN [id |-> rec.id, v |-> IF exp.how = "unspec" THEN "unspec" ELSE "ok", how |-> exp.how]
